@@ -343,6 +343,8 @@ def run_verus(fn, rlimit=None, seed=None, threads=None, timeout=900):
                    "rlimit": f.get("rlimit", 0) + (prev["rlimit"] if prev else 0),
                    "mode": f.get("mode:", "")}
             res["functions"][name] = ent
+    if not res["functions"] and diags:
+        res["status"] = "compile-error"
     if not res["functions"] and res["errors"] and not vr.get("verified"):
         # errors before SMT (type errors etc.)
         if not any("postcondition" in (d["message"] or "") or "assertion" in (d["message"] or "") or "precondition" in (d["message"] or "") for d in diags):
